@@ -87,8 +87,8 @@ static Bytes Sha256d(const Bytes& a)
 }
 
 // =========================================================================================== Part A
-enum Op { W_TINY, W_MID, W_FIT, W_SPILL, W_OVER, U_EMPTY, U_BIG, U_HUGE, FLUSH, PRUNE, RESTART, N_OPS };
-static const char* OP_NAME[N_OPS] = {"Wtiny", "Wmid", "Wfit", "Wspill", "Wover", "Uempty", "Ubig", "Uhuge", "flush", "prune", "restart"};
+enum Op { W_TINY, W_MID, W_FIT, W_SPILL, W_OVER, U_EMPTY, U_BIG, U_HUGE, FLUSH, PRUNE, RESTART, N_OPS /* enumerated alphabet ends here */, W_AHEAD = N_OPS, REINDEX, N_ALL_OPS };
+static const char* OP_NAME[N_ALL_OPS] = {"Wtiny", "Wmid", "Wfit", "Wspill", "Wover", "Uempty", "Ubig", "Uhuge", "flush", "prune", "restart", "Wahead", "reindex"};
 
 static std::string HistStr(const std::vector<int>& h)
 {
@@ -217,7 +217,7 @@ struct PartA {
         int cur_file{0};
         unsigned cur_fill{0};
         std::set<int> pruned_files;
-        int restarts{0};
+        int restarts{0}, reindexed{0};
         bool ok{true};
     };
 
@@ -228,7 +228,8 @@ struct PartA {
         fs::create_directories(root);
         if (use_xor) WriteFile(root / "xor.dat", key);
         std::unique_ptr<leveldb::Env> env{leveldb::NewMemEnv(leveldb::Env::Default())};
-        const BlockManager::Options opts{
+        auto make_bm = [&] {
+        BlockManager::Options opts{
             .chainparams = Params(),
             .use_xor = use_xor,
             .prune_target = 1,
@@ -239,8 +240,10 @@ struct PartA {
             // survives the "restart" operation (destroy the BlockManager, re-create it, LoadBlockIndexDB)
             .block_tree_db_params = DBParams{.path = root / "index", .cache_bytes = 0, .memory_only = false, .testing_env = env.get()},
         };
+        return std::make_unique<BlockManager>(*node.m_node.shutdown_signal, std::move(opts));
+        };
         Run r;
-        r.bm = std::make_unique<BlockManager>(*node.m_node.shutdown_signal, opts);
+        r.bm = make_bm();
         LOCK(cs_main);
         CBlockIndex* best = nullptr;
         for (auto& hd : spine) r.bm->AddToBlockIndex(hd, best);
@@ -257,7 +260,7 @@ struct PartA {
                 if (!r.blocks.empty() && !bm.FlushChainstateBlockFile(r.blocks.back().height)) { fail("flush-failed", "FlushChainstateBlockFile failed"); return true; }
                 bm.WriteBlockIndexDB();
                 r.bm.reset();
-                r.bm = std::make_unique<BlockManager>(*node.m_node.shutdown_signal, opts);
+                r.bm = make_bm();
                 if (!r.bm->LoadBlockIndexDB({})) { fail("restart-load-failed", "LoadBlockIndexDB failed after a clean restart at step " + std::to_string(step)); return true; }
                 best = nullptr;
                 bool lost = false;
@@ -269,11 +272,56 @@ struct PartA {
                 r.restarts++;
                 continue;
             }
-            if (op <= W_OVER) {
-                int h = (int)r.blocks.size() + 1;
+            if (op == REINDEX) {
+                // -reindex: the block files stay, the index is rebuilt from them. A fresh BlockManager with an empty
+                // block tree database gets every stored record through UpdateBlockInfo() in the order
+                // LoadExternalBlockFile() indexes them: parents first, i.e. by height (a block stored before its
+                // parent is parked until the parent was read), not by position in the file. Undo data is rewritten
+                // when the blocks are connected again, so no block has undo data afterwards.
+                if (r.blocks.empty()) return false;
+                if (!bm.FlushChainstateBlockFile(r.blocks.back().height)) { fail("flush-failed", "FlushChainstateBlockFile failed"); return true; }
+                r.bm.reset();
+                env.reset(leveldb::NewMemEnv(leveldb::Env::Default()));
+                r.bm = make_bm();
+                best = nullptr;
+                for (auto& hd : spine) r.bm->AddToBlockIndex(hd, best);
+                r.blocks.erase(std::remove_if(r.blocks.begin(), r.blocks.end(), [](const MBlock& m) { return m.pruned; }), r.blocks.end());
+                std::vector<MBlock*> order;
+                for (auto& m : r.blocks) order.push_back(&m);
+                std::sort(order.begin(), order.end(), [](const MBlock* a, const MBlock* b) { return a->height < b->height; });
+                for (MBlock* m : order) {
+                    CBlock blk;
+                    SpanReader{std::span<const unsigned char>(m->bytes)} >> TX_WITH_WITNESS(blk);
+                    r.bm->UpdateBlockInfo(blk, m->height, m->pos);
+                    CBlockIndex* b2 = best;
+                    CBlockIndex* idx = r.bm->AddToBlockIndex(static_cast<const CBlockHeader&>(blk), b2);
+                    idx->nFile = m->pos.nFile;
+                    idx->nDataPos = m->pos.nPos;
+                    idx->nTx = 1;
+                    idx->nStatus |= BLOCK_HAVE_DATA;
+                    m->idx = idx;
+                    m->have_undo = false;
+                    m->undo_bytes.clear();
+                    m->undo_pos = FlatFilePos();
+                }
+                // the write cursor of the reference model: end of the last record of the highest-numbered file
+                r.cur_file = 0;
+                for (auto& m : r.blocks) r.cur_file = std::max(r.cur_file, m.pos.nFile);
+                r.cur_fill = 0;
+                for (auto& m : r.blocks) if (m.pos.nFile == r.cur_file) r.cur_fill = std::max<unsigned>(r.cur_fill, m.pos.nPos + m.bytes.size());
+                r.reindexed++;
+                continue;
+            }
+            if (op <= W_OVER || op == W_AHEAD) {
+                // the lowest height not stored yet; Wahead stores the one after it first (out-of-order arrival)
+                std::set<int> have;
+                for (auto& m : r.blocks) have.insert(m.height);
+                int h = 1;
+                while (have.count(h)) h++;
+                if (op == W_AHEAD) { h++; if (have.count(h)) return false; }
                 if (h > max_height) return false;
                 unsigned n;
-                if (op == W_TINY) n = 160;
+                if (op == W_TINY || op == W_AHEAD) n = 160;
                 else if (op == W_MID) n = 20000;
                 else if (op == W_OVER) n = 70000;
                 else {
@@ -301,7 +349,7 @@ struct PartA {
                 r.cur_fill = pos.nPos + n;
             } else if (op <= U_HUGE) {
                 MBlock* t = nullptr;
-                for (auto& m : r.blocks) if (m.have_data && !m.have_undo) { t = &m; break; }
+                for (auto& m : r.blocks) if (m.have_data && !m.have_undo && (!t || m.height < t->height)) t = &m; // connect order: lowest height first
                 if (!t) return false;
                 const CBlockUndo& u = Undo(op);
                 BlockValidationState st;
@@ -443,6 +491,7 @@ struct PartA {
         if (big_undo_gt_block) out.count("A_undo_larger_than_blocks");
         if (!r.pruned_files.empty()) out.count("A_pruned");
         if (r.restarts) out.count("A_restarted");
+        if (r.reindexed) out.count("A_reindexed");
         if (files.size() >= 2) out.distinct(use_xor ? "layoutx" : "layout", layout);
         (void)hist;
     }
@@ -458,6 +507,14 @@ static const std::vector<std::vector<int>> DIRECTED = {
     {W_TINY, W_OVER, U_EMPTY, U_HUGE, RESTART, W_TINY, U_EMPTY, PRUNE, RESTART, W_TINY, U_EMPTY},
     {W_FIT, W_TINY, U_HUGE, RESTART, U_EMPTY, FLUSH, RESTART, W_TINY, U_BIG},
     {W_TINY, W_TINY, W_OVER, W_TINY, U_EMPTY, U_BIG, FLUSH, U_EMPTY, U_EMPTY, RESTART, W_MID, U_BIG, RESTART, W_SPILL, U_EMPTY},
+    // reindex family: blocks stored out of height order (B1, B3, B2), index rebuilt through UpdateBlockInfo in height
+    // order (the record at the lower position is indexed last), then more writes: nothing stored may be overwritten
+    {W_TINY, W_AHEAD, W_TINY, REINDEX, W_TINY},
+    {W_MID, W_AHEAD, W_MID, W_AHEAD, W_TINY, REINDEX, W_MID, U_EMPTY, U_BIG},
+    {W_TINY, W_AHEAD, W_TINY, U_EMPTY, U_EMPTY, FLUSH, REINDEX, U_EMPTY, W_OVER, W_TINY, U_BIG},
+    {W_MID, W_MID, W_AHEAD, W_MID, W_SPILL, REINDEX, W_TINY, RESTART, W_TINY, U_EMPTY},
+    {W_AHEAD, W_TINY, REINDEX, W_FIT, W_TINY, REINDEX, W_TINY},
+    {W_TINY, W_AHEAD, W_OVER, W_AHEAD, W_TINY, PRUNE, REINDEX, W_TINY, W_TINY},
 };
 
 static uint64_t ipow(uint64_t b, int e) { uint64_t r = 1; while (e-- > 0) r *= b; return r; }
@@ -903,7 +960,7 @@ static int Run()
     E.set("partB_outcomes", oc + "}");
     for (auto& [k, v] : counts) printf("  %s = %llu\n", k.c_str(), (unsigned long long)v);
     for (auto& [k, v] : cls) printf("  [%s] = %llu\n", k.c_str(), (unsigned long long)v);
-    E.rule = "Part A: every history of length 1..depth over {WriteBlock x5 size classes (160 B, 20 kB, exactly filling the 64 KiB -fastprune file, one byte too many, 70 kB), WriteBlockUndo x3 (1 B, 30 kB, 69 kB), FlushChainstateBlockFile + WriteBlockIndexDB, prune oldest file, clean restart (flush, WriteBlockIndexDB, destroy the BlockManager, re-create it on the same directory and block tree DB, LoadBlockIndexDB)} plus 6 directed histories of length 8..15 (incl. undo data written into a no-longer-current file around a restart) on a fresh real BlockManager, XOR key on and off; after each history all reads (ReadBlock index/pos, ReadRawBlock whole + 13 part ranges, ReadBlockUndo) compared byte for byte, records tile their files and match CBlockFileInfo, raw disk bytes match magic|size|payload(|checksum). "
+    E.rule = "Part A: every history of length 1..depth over {WriteBlock x5 size classes (160 B, 20 kB, exactly filling the 64 KiB -fastprune file, one byte too many, 70 kB), WriteBlockUndo x3 (1 B, 30 kB, 69 kB), FlushChainstateBlockFile + WriteBlockIndexDB, prune oldest file, clean restart (flush, WriteBlockIndexDB, destroy the BlockManager, re-create it on the same directory and block tree DB, LoadBlockIndexDB)} plus 12 directed histories of length 5..15 (6 of them a reindex family: blocks stored out of height order, index rebuilt on a fresh BlockManager through UpdateBlockInfo in parents-first order, further writes) (incl. undo data written into a no-longer-current file around a restart) on a fresh real BlockManager, XOR key on and off; after each history all reads (ReadBlock index/pos, ReadRawBlock whole + 13 part ranges, ReadBlockUndo) compared byte for byte, records tile their files and match CBlockFileInfo, raw disk bytes match magic|size|payload(|checksum). "
              "Part B: on a regtest node, for 3 block records and 3 undo records: every byte x {0x01,0x80} flip, every truncation length, every zeroed tail; ReadBlock/ReadBlockUndo must fail or return the original (strictly fail for magic/header/undo payload/checksum changes); flips that ReadBlock lets through with different tx bytes are replayed in a fork (InvalidateBlock, corrupt, ReconsiderBlock) and must not become active. "
              "distinct_nontrivial = distinct faults rejected at read + distinct faults blocked at connection + distinct multi-file layouts reached.";
     E.assume("regtest, -fastprune (64 KiB block files, 16 KiB chunks); stored blocks of part A are deserialisable one-transaction blocks hanging off a header-only spine (BlockManager does not look at transaction validity)");
@@ -915,6 +972,7 @@ static int Run()
     g &= need(counts["B_connect_tests"] > 0 && counts["B_connect_blocked"] > 0, "no connection test blocked");
     g &= need(counts["A_pruned"] > 0, "no history pruned a file");
     g &= need(counts["A_restarted"] > 0, "no history restarted the BlockManager");
+    g &= need(counts["A_reindexed"] > 0, "no history re-indexed the block files");
     g &= need(counts["A_directed"] > 0 && counts["A_directed_not_enabled"] == 0 && counts["A_directed"] % DIRECTED.size() == 0, "a directed history was not executable");
     g &= need(counts["A_undo_in_finalized_file"] > 0, "no history wrote undo data into a file the block cursor had left");
     g &= need(counts["A_undo_larger_than_blocks"] > 0, "no file whose undo data exceeds its block data");
